@@ -312,7 +312,9 @@ static int mode_run(const Args &a) {
   int exitcode = 0;
   uint64_t i = a.start;
   uint64_t last_index = a.start;
+  signal(SIGALRM, [](int) { _exit(5); });      // real-time watchdog: a run that never reaches a scheduling point again
   for (uint64_t n = 0; (a.count == 0 || n < a.count); n++, i += a.stride) {
+    if ((n & 63) == 0) alarm(45);
     if (a.time_budget > 0 && (n & 7) == 0 && Shrinker::now() - t0 > a.time_budget) break;
     if (prog) { prog[0] = i; prog[1] = 1; }
     uint64_t seed = run_seed(a.seed, i);
@@ -349,6 +351,7 @@ static int mode_run(const Args &a) {
       if (!out2.res.clean) { exitcode = 3; break; }
     }
   }
+  alarm(0);
   if (prog) prog[1] = 0;
   if (!a.hashes.empty()) {
     FILE *f = fopen(a.hashes.c_str(), "ab");
